@@ -5,6 +5,7 @@ import (
 	"bytes"
 	"context"
 	"fmt"
+	"io"
 	"os"
 	"path/filepath"
 	"runtime"
@@ -146,6 +147,20 @@ func TestHistoryIndependence(t *testing.T) {
 
 		log := vlib.NewEventLog()
 		pw := vlib.NewRec(log, 1, 0)
+		// optionally the probe's destination is re-entrant: inside Write, before looking at the payload, it logs a
+		// line of its own through another logger (e.g. a metrics or audit hook). The payload it was handed
+		// must still be the probe record.
+		hookOn := false
+		reentrant := rapid.IntRange(0, 3).Draw(t, "reentrantDestination") == 0
+		if reentrant {
+			side := slog.New("side").SetJSONMode(true).SetWriter(io.Discard).SetErrorWriter(io.Discard).SetLevel(slog.AlwaysLevel)
+			log.Hook = func(int) {
+				if !hookOn {
+					return
+				}
+				side.Info("a line logged from inside the destination's Write: "+strings.Repeat("overwrite ", 40), "k", 123456789, "s", "side record")
+			}
+		}
 		var plg slog.Logger
 		if p.Named {
 			plg = slog.New("probe")
@@ -227,10 +242,14 @@ func TestHistoryIndependence(t *testing.T) {
 
 		b0 := doProbe()
 		runHist(h1, g1)
+		hookOn = true // (only matters for a re-entrant destination) the side logging happens for emissions 2 and 4 only
 		b1 := doProbe()
+		hookOn = false
 		runHist(h2, 1)
 		b2 := doProbe()
+		hookOn = true
 		b3 := doProbe()
+		hookOn = false
 
 		desc := fmt.Sprintf("probe{format=%s severity=%d named=%v caller=%v utc=%d msg=%s attrs=[%s]}", p.Format, int(p.Sev), p.Named, p.Caller, p.UTC, vlib.Short(p.Msg), vlib.Describe(p.Attrs))
 		last := func(h []histCall) string {
@@ -278,6 +297,9 @@ func TestHistoryIndependence(t *testing.T) {
 		if twoMappings {
 			nt["file-under-two-path-mappings"] = true
 		}
+		if reentrant {
+			nt["re-entrant-destination"] = true
+		}
 		key := ""
 		if nt["history-has-longer-record"] || nt["history-has-other-format"] || nt["history-has-other-colour"] {
 			key = fmt.Sprintf("%s|%d|%v|%v|%s|%d|%d", p.Format, int(p.Sev), p.Named, p.Caller, vlib.JoinSorted(nt), len(h1), len(h2))
@@ -290,5 +312,56 @@ func TestHistoryIndependence(t *testing.T) {
 		if key != "" && vlib.WantSample("TestHistoryIndependence/"+p.Format) {
 			vlib.Sample("TestHistoryIndependence/"+p.Format, map[string]any{"probe": desc, "history1": last(h1), "history2": last(h2), "payload": vlib.Short(string(b0))})
 		}
+	})
+}
+
+var regCounter = 5000
+
+// TestRegistrationHistory: two custom levels registered identically (same tags and colours) must print
+// identically in colored mode (where only the tag shows) - whether or not records at that level value
+// were emitted while it was still unregistered.
+func TestRegistrationHistory(t *testing.T) {
+	rapid.Check(t, func(t *rapid.T) {
+		defer vlib.Canon()()
+		regCounter += 2
+		a, b := slog.Level(regCounter), slog.Level(regCounter+1)
+		width := rapid.IntRange(1, 5).Draw(t, "tagWidth")
+		slog.SetLevelOutputWidth(width)
+		tags := [slog.MaxLengthShortTag]string{"", "Q", "QR", "QRS", "QRST", "QRSTU"}
+		withTags := rapid.Bool().Draw(t, "withTags")
+		log := vlib.NewEventLog()
+		w := vlib.NewRec(log, 1, 0)
+		lg := slog.New().SetColorMode(true).SetWriter(w).SetErrorWriter(w).SetLevel(slog.AlwaysLevel)
+		ts := time.Unix(1700000000, 123456000).UTC()
+		emit := func(l slog.Level) []byte {
+			before := log.Len()
+			lg.WriteThru(context.Background(), l, ts, 0, "registration probe", nil)
+			return log.Snapshot()[before:][0].Payload
+		}
+		// history: level a is used while unregistered (possibly at several widths), b is not
+		n := rapid.IntRange(1, 3).Draw(t, "recordsBeforeRegistration")
+		for i := 0; i < n; i++ {
+			slog.SetLevelOutputWidth(rapid.IntRange(1, 5).Draw(t, "earlierWidth"))
+			emit(a)
+		}
+		slog.SetLevelOutputWidth(width)
+		emit(a)
+		opts := []slog.RegOpt{slog.RegWithColor(color.FgWhite, color.BgUnderline), slog.RegWithTreatedAsLevel(slog.InfoLevel)}
+		if withTags {
+			opts = append(opts, slog.RegWithShortTags(tags))
+		}
+		title := fmt.Sprintf("same%d", regCounter)
+		if err := slog.RegisterLevel(a, title+"x", opts...); err != nil {
+			t.Fatalf("harness: %v", err)
+		}
+		if err := slog.RegisterLevel(b, title+"y", opts...); err != nil {
+			t.Fatalf("harness: %v", err)
+		}
+		pa, pb := emit(a), emit(b)
+		if !bytes.Equal(pa, pb) {
+			vlib.Discrep(t, "C09/registration-history", "C09 two levels registered identically (tags=%v, width %d) print differently; the first had been logged %d times while unregistered:\n  %q\n  %q", withTags, width, n+1, pa, pb)
+		}
+		vlib.Case("TestRegistrationHistory", fmt.Sprintf("%d|%v|%d", width, withTags, n), "registration-history")
+		vlib.Sample("TestRegistrationHistory", map[string]any{"width": width, "tags": withTags, "payload": vlib.Short(string(pa))})
 	})
 }
